@@ -223,6 +223,115 @@ def one(flavour, point, mutation, entry, name):
     return bad
 
 
+class IPA(IP):
+    pass
+
+
+class IPB(IP):
+    pass
+
+
+class IPC(IP):
+    pass
+
+
+# single mutations only: the statement speaks of a lookup interrupted by *a* mutation; a callback that performs two of them
+# lets a walk legitimately combine the state before the first with the state after the second (DESIGN 10.4)
+WALK_MUT = ['unregister A', 'unregister B', 'unregister C', 'unsubscribe A', 'unsubscribe B', 'unsubscribe C', 'register D']
+
+
+WALK_WORLDS = ['', 'C', 'B', 'BC', 'A']      # which of the three extenders are registered for IR2 only (not applicable to IR)
+
+
+def walk_world(flavour, elsewhere='', subs=False):
+    """a registry whose nested containers call out (documented override point _mappingType): the k-th get() of a walk
+    runs a mutation; provided interface IP has three registered extenders"""
+    class FDict(dict):
+        def get(self, k, d=None):
+            st = FDict.state
+            st['count'] += 1
+            if st['armed'] is not None and st['count'] == st['armed'][0]:
+                f = st['armed'][1]
+                st['armed'] = None
+                f()
+            return dict.get(self, k, d)
+    FDict.state = {'count': 0, 'armed': None}
+    RBase = AdapterRegistry if flavour == 'A' else VerifyingAdapterRegistry
+
+    class R(RBase):
+        _mappingType = FDict
+    reg = R()
+    for i, n in ((IPA, 'A'), (IPB, 'B'), (IPC, 'C')):
+        # either adapters or subscribers, so that removing one removes the last mention of its provided interface
+        if subs:
+            reg.subscribe([IR2 if n in elsewhere else IR], i, 'sub-' + n)
+        else:
+            reg.register([IR2 if n in elsewhere else IR], i, '', 'adapter-' + n)
+    reg._walk_elsewhere = elsewhere
+    return reg, FDict
+
+
+def walk_mutation(reg, m):
+    tbl = {'A': IPA, 'B': IPB, 'C': IPC}
+    kind, what = m.split(' ')
+    for x in what.split('+'):
+        r = IR2 if x in reg._walk_elsewhere else IR
+        if kind == 'unregister':
+            reg.unregister([r], tbl[x], '')
+        elif kind == 'unsubscribe':
+            reg.unsubscribe([r], tbl[x], 'sub-' + x)
+        elif kind == 'register':
+            class IPD(IP):
+                pass
+            reg.register([IR], IPD, '', 'adapter-D')
+            reg.subscribe([IR], IPD, 'sub-D')
+
+
+def walk(flavour, entry, mutation, elsewhere=''):
+    """interrupt the uncached walk of `entry` at every call-out k: the answer must be the one from before or from after
+    the mutation, and the next call must give the after-answer"""
+    bad = []
+
+    def ask(reg):
+        if entry == 'lookup':
+            return reg.lookup((IR,), IP, '')
+        if entry == 'lookup1':
+            return reg.lookup1(IR, IP, '')
+        if entry == 'lookupAll':
+            return tuple(sorted(dict(reg.lookupAll((IR,), IP)).items()))
+        return tuple(reg.subscriptions((IR,), IP))
+    reg, FDict = walk_world(flavour, elsewhere, entry == 'subscriptions')
+    FDict.state['count'] = 0
+    before = ask(reg)
+    total = FDict.state['count']
+    n = 0
+    for k in range(1, total + 1):
+        reg, FDict = walk_world(flavour, elsewhere, entry == 'subscriptions')
+        FDict.state['count'] = 0
+        FDict.state['armed'] = (k, lambda: walk_mutation(reg, mutation))
+        n += 1
+        try:
+            got = ask(reg)
+        except Exception as e:
+            bad.append(('walk-exception', '%s registry (extenders %r registered for another required interface), %s interrupted at call-out %d by %r: raised %r' % (flavour, elsewhere, entry, k, mutation, e)))
+            break
+        if FDict.state['armed'] is not None:
+            continue
+        after = ask(reg)
+        ref, _ = walk_world(flavour, elsewhere, entry == 'subscriptions')
+        walk_mutation(ref, mutation)
+        exp_after = ask(ref)
+        if after != exp_after:
+            bad.append(('walk-stale', '%s registry, %s after an interruption at call-out %d by %r answers %r, a registry that was '
+                        'never interrupted answers %r (extenders %r registered for another required interface)' % (flavour, entry, k, mutation, after, exp_after, elsewhere)))
+            break
+        if got != before and got != exp_after:
+            bad.append(('walk-atomicity', '%s registry, %s interrupted at call-out %d by %r returned %r: neither the answer before '
+                        'the mutation %r nor the one after it %r (extenders %r registered for another required interface)' % (flavour, entry, k, mutation, got, before, exp_after, elsewhere)))
+            break
+    return bad, n
+
+
 def refcounts(flavour):
     """reference balance on normal and error exits of the lookup entry points"""
     bad = []
@@ -340,7 +449,8 @@ def threads(seconds):
 
 
 def replay(kind, *args):
-    bad = {'one': one, 'refcounts': refcounts, 'hooklist': hooklist, 'threads': threads}[kind](*args)
+    bad = {'one': one, 'refcounts': refcounts, 'hooklist': hooklist, 'threads': threads,
+           'walk': lambda *a: walk(*a)[0]}[kind](*args)
     for sig, what in bad[:6]:
         print('violated:', sig, what)
     sys.exit(1 if bad else 0)
@@ -348,7 +458,8 @@ def replay(kind, *args):
 
 def run(ctx):
     import itertools
-    ctx.rule = ('product: registry flavour x call-out point %r x mutation %r x entry point %r x name {"", "n"}; plus reference-count '
+    ctx.rule = ('walk interruption: a mutation (%r) fired from the k-th container access inside the uncached walk of lookup/lookup1/lookupAll/subscriptions, every k; ' % (WALK_MUT,) +
+                'product: registry flavour x call-out point %r x mutation %r x entry point %r x name {"", "n"}; plus reference-count '
                 'deltas over 200 calls on 9 normal/error exits, the hook that empties the hook list, and (thorough) 3 lookup '
                 'threads against a registering thread; distinct = points of the product' % (POINT, MUTATION, ENTRY))
     ctx.bounds = 'one mutation per interrupted call'
@@ -362,6 +473,14 @@ def run(ctx):
         for sig, what in one(*args):
             ctx.violation(sig + ':' + point + ':' + entry, what, 'from falsify.C11 import replay\nreplay("one", *%r)\n' % (args,))
     ctx.sample({'call-out': 'overridden _uncached_lookup', 'mutation': 'register', 'entry': 'lookup'})
+    for flavour, entry, mutation, elsewhere in itertools.product('AV', ('lookup', 'lookup1', 'lookupAll', 'subscriptions'), WALK_MUT, WALK_WORLDS):
+        if ctx.too_many():
+            return
+        bad, n = walk(flavour, entry, mutation, elsewhere)
+        for k in range(n):
+            ctx.case(('walk', flavour, entry, mutation, elsewhere, k))
+        for sig, what in bad:
+            ctx.violation(sig + ':' + entry, what, 'from falsify.C11 import replay\nreplay("walk", %r, %r, %r, %r)\n' % (flavour, entry, mutation, elsewhere))
     for fl in 'AV':
         ctx.case(('refcounts', fl))
         for sig, what in refcounts(fl):
